@@ -349,11 +349,28 @@ class Run:
 
 
 def parse_observed(path):
-    runs, cur, blk = {}, None, None
     try:
         text = Path(path).read_text()
     except OSError:
-        return runs
+        return {}
+    return parse_observed_text(text)
+
+
+def parse_model_traces(dirs):
+    """The MODEL's own run of every schedule, as `lkdriver check` rendered it in the harness's format (M lines of verdict.txt):
+    expected observation after every item + the epilogue's calls made on the model. -> {sid: Run}"""
+    out = {}
+    for d in dirs:
+        try:
+            text = (Path(d) / "verdict.txt").read_text()
+        except OSError:
+            continue
+        out.update(parse_observed_text("\n".join(l[2:] for l in text.splitlines() if l.startswith("M "))))
+    return out
+
+
+def parse_observed_text(text):
+    runs, cur, blk = {}, None, None
     for line in text.splitlines():
         f = line.split()
         if not f:
@@ -1062,8 +1079,38 @@ def execute(ctx, b, sched_file, name, procs=8, timeout=300, xpark=True):
                 reached[k] = reached.get(k, 0) + v
         except Exception:
             pass
+    try:
+        mruns = parse_model_traces(rr["dirs"])
+    except Exception as ex:  # noqa
+        mruns = {}
+        ctx.note("T2: model traces unreadable: %r" % (ex,))
     return dict(runs=runs, chk=chk, failures=rr["failures"], reached=reached, schedules=rr["schedules"], abandoned=rr["abandoned"], dirs=list(rr["dirs"]),
-                tp=tp, tp_wall=t_tp)
+                tp=tp, tp_wall=t_tp, mruns=mruns)
+
+
+def oracle_selftest(prop, mruns, chk, acc):
+    """Oracle self-test: Mlk is PROVED to satisfy the property on every schedule (Properties/<prop>.v; strict C02 up to F-LIN2), so the
+    Python oracle of `prop` must accept the model's own trace of every schedule run. Judged: complete model traces of schedules on
+    which model and implementation agree in everything but labels (the epilogue calls made on the model are the ones the harness
+    chose from the REAL results: where the two differ, they are not the model's epilogue). acc: dict(model_traces_judged, failures=[..],
+    known_finding_matches, skipped_model_differs_from_real)."""
+    oracle = ORACLES[prop]
+    for sid, mrun in sorted(mruns.items()):
+        c = chk.get(sid, {})
+        if not mrun.complete or any(d[1] != "label" for d in c.get("diffs", [])) or c.get("bad"):
+            acc["skipped_model_differs_from_real"] += 1
+            continue
+        acc["model_traces_judged"] += 1
+        try:
+            vs = oracle(mrun, history(mrun))
+        except Exception as ex:  # noqa
+            vs = [(-1, "the oracle raised %r on the model trace" % (ex,), False)]
+        for v in vs:
+            if prop == "C02" and len(v) > 2 and v[2] and c.get("giveback"):
+                acc["known_finding_matches"] += 1
+            else:
+                acc["failures"].append((sid, v[0], v[1]))
+    return acc
 
 
 def judge(prop, runs, chk, failures, compare=True, tp=None):
@@ -1161,6 +1208,7 @@ def run_property(ctx, prop, scenarios=None, tier=None, procs=8):
     runs, chk, failures, reached = {}, {}, [], {}
     tp, tp_wall = {}, 0.0     # verdicts of the extracted Coq trace predicates per schedule (trace_predicates)
     cq_dirs = []     # directories whose observed.txt / verdict.txt lib/coqeval.py samples
+    mruns = {}       # the model's own trace of every schedule (oracle self-test)
     # corpus first
     corpus = [c for c in corpus_schedules() if not c.get("props") or prop in c["props"]]
     if corpus:
@@ -1169,6 +1217,7 @@ def run_property(ctx, prop, scenarios=None, tier=None, procs=8):
         e = execute(ctx, b, cf, "corpus-%s" % prop, procs=procs, xpark=False)
         runs.update(e["runs"]); chk.update(e["chk"]); failures += e["failures"]
         tp.update(e["tp"]); tp_wall += e["tp_wall"]
+        mruns.update(e.get("mruns", {}))
         cq_dirs += e["dirs"]
         for k, v in e["reached"].items():
             reached[k] = reached.get(k, 0) + v
@@ -1179,6 +1228,7 @@ def run_property(ctx, prop, scenarios=None, tier=None, procs=8):
     e = execute(ctx, b, sf, "run-%s" % prop, procs=procs, timeout=300 if tier == "quick" else 3000, xpark=False)
     runs.update(e["runs"]); chk.update(e["chk"]); failures += e["failures"]
     tp.update(e["tp"]); tp_wall += e["tp_wall"]
+    mruns.update(e.get("mruns", {}))
     cq_dirs += e["dirs"]
     for k, v in e["reached"].items():
         reached[k] = reached.get(k, 0) + v
@@ -1196,6 +1246,7 @@ def run_property(ctx, prop, scenarios=None, tier=None, procs=8):
         e2 = execute(ctx, b, xf, "xrun-%s" % prop, procs=procs, timeout=300 if tier == "quick" else 3000, xpark="w")
         xruns, xchk, xfail = e2["runs"], e2["chk"], e2["failures"]
         xtp.update(e2["tp"]); tp_wall += e2["tp_wall"]
+        mruns.update(e2.get("mruns", {}))
         cq_dirs += e2["dirs"]
         meta = {x["id"]: x for x in xl}
         for sid, r in xruns.items():
@@ -1246,6 +1297,23 @@ def run_property(ctx, prop, scenarios=None, tier=None, procs=8):
     x_mism = j2["mismatches"]
     j["mismatches"] += x_mism
     runs.update(xruns); chk.update(xchk); failures += xfail
+    # oracle self-test: the same Python oracle on the MODEL's own trace of every schedule (comparison, corpus and exhibit runs)
+    ts_ = time.time()
+    allchk = dict(chk); allchk.update(xchk)
+    st = oracle_selftest(prop, mruns, allchk, dict(model_traces_judged=0, failures=[], known_finding_matches=0, skipped_model_differs_from_real=0))
+    tie["oracle_selftest"] = {
+        "model_traces_judged": st["model_traces_judged"], "failures": len(st["failures"]), "known_finding_matches": st["known_finding_matches"],
+        "skipped_model_differs_from_real": st["skipped_model_differs_from_real"], "first_failures": [list(f) for f in st["failures"][:5]],
+        "wall_s": round(time.time() - ts_, 2),
+        "rule": "lkdriver check renders the model's run of every schedule in the harness's format (expected observation after every item; the "
+                "epilogue's calls made on the model); oracle_%s must accept it: Mlk is proved to satisfy %s on every schedule (F-LIN2 shape with "
+                "a model LaGiveBack = known finding)" % (prop, prop)}
+    if st["failures"]:
+        sid_, idx_, text_ = st["failures"][0]
+        ctx.violation({"broken": "oracle", "property": prop, "schedule": sid_, "at": idx_, "oracle_says": text_, "failures": len(st["failures"]),
+                       "model_trace": mruns[sid_].raw[:400]},
+                      "oracle self-test: the Python oracle of %s rejects a trace of the proved model (schedule %s, event %d: %s)" % (prop, sid_, idx_, text_[:200]),
+                      name="t2_oracle_selftest_%s.json" % sid_.replace("#", "_").replace(":", "_"), no_failing_input=True)
     tie["exhibit"] = {
         "runs": len(xruns), "window_exhibit_runs": sum(1 for k in xruns if not k.startswith("x:")),
         "shape_sentinel_reruns": sum(1 for k in xruns if k.startswith("x:")), "additional_mutex_acquisitions_seen": additional,
@@ -1408,6 +1476,7 @@ def main(argv=None):
         tie = ctx.coverage["ties"]["T2-sched"]
         total += tie["schedules_executed_on_real_code"]
         x_ = tie.get("exhibit", {})
+        print("%s: oracle self-test on model traces: %s" % (p, json.dumps({k_: v_ for k_, v_ in tie.get("oracle_selftest", {}).items() if k_ != "rule"})))
         print("%s: exhibit runs %d (inserted %s; gc-overrun variants %d; failing oracle %d; mismatches %d; %.1fs)"
               % (p, x_.get("runs", 0), x_.get("inserted_by_window_and_kind"), x_.get("gc_overrun_variants", 0), x_.get("schedules_failing_oracle", 0),
                  x_.get("mismatches_in_projection", 0), x_.get("wall_s", 0)))
